@@ -252,7 +252,17 @@ def _impl_cr(case):
             os.remove(p)
 
 
+def _cr_ambiguous(case):
+    """the format does not store the number of variables: a 3-variable file whose data size is also a whole number
+    of 5-variable steps cannot be told from a 5-variable file (the reader tries 5 first)"""
+    n = case['nx'] * case['ny']
+    size = lambda nv: nv * case['nz'] * (n + 2) * 4 + 16
+    return len(case['names']) == 3 and (len(case['flags']) * size(3)) % size(5) == 0
+
+
 def _oracle_cr(case, res):
+    if case['kind'] == 'cread' and _cr_ambiguous(case):
+        return None
     if 'err' in res:
         return 'raised %s %s' % (res['err'], res.get('msg'))
     n, nv = case['nx'] * case['ny'], len(case['names'])
@@ -376,6 +386,8 @@ def to_line(case, res):
 
 
 def agree(case, out, res):
+    if case['kind'] == 'cread' and _cr_ambiguous(case):
+        return None
     if 'err' in res:
         return None if out.startswith('err') else 'impl raised %s (%s), model %s' % (res['err'], res.get('msg'), out[:60])
     if not out.startswith('ok '):
